@@ -165,6 +165,11 @@ func c10Build(feats []string) map[string]any {
 				"schema": map[string]any{"type": "object", "allOf": []any{map[string]any{"type": "object", "properties": map[string]any{
 					"id": intS(), "o": map[string]any{"type": "object", "properties": map[string]any{"z": map[string]any{"type": "integer", "default": 3}}}}}}},
 				"encoding": map[string]any{"o": map[string]any{"style": "form", "explode": false}}}
+		case "form_body_no_schema":
+			// media types without a schema: any body of that type is acceptable
+			body["content"].(map[string]any)["application/x-www-form-urlencoded"] = map[string]any{}
+		case "multipart_body_no_schema":
+			body["content"].(map[string]any)["multipart/form-data"] = map[string]any{}
 		case "no_request_body":
 			body = nil
 		case "allof_param":
@@ -257,6 +262,14 @@ func c10Request(feats, muts []string) *c10Req {
 	}
 	if has(feats, "param_content_no_schema") {
 		r.query = append(r.query, `g=%7B%22a%22%3A1%7D`)
+	}
+	if has(feats, "form_body_no_schema") {
+		r.header.Set("Content-Type", "application/x-www-form-urlencoded")
+		r.body = []byte("id=1&name=ab")
+	}
+	if has(feats, "multipart_body_no_schema") {
+		r.header.Set("Content-Type", "multipart/form-data; boundary=xyz")
+		r.body = []byte("--xyz\r\nContent-Disposition: form-data; name=\"id\"\r\n\r\n1\r\n--xyz--\r\n")
 	}
 	if has(feats, "form_allof_object_default") {
 		r.header.Set("Content-Type", "application/x-www-form-urlencoded")
